@@ -22,7 +22,7 @@ package syntax
 //@   nopanic
 //@   ensures [C02] always: result
 //@ axiom forall v string :: pure0("syntax.InterceptorFunc", funcval("syntax.Interceptors.NewSegment$1"), v)
-//@ opaque pred segRegexp(s *Segment) = (s.Type == 2 ==> s.expr != nil && (selfContained(s.rule) ==> s.expr.gtail == s.Suffix))
+//@ opaque pred segRegexp(s *Segment) = (s.Type == 2 ==> s.expr != nil && (selfContained(s.rule) ==> s.expr.gtail == s.Suffix && s.expr.grouped))
 //@ pred segOK(s *Segment) = segShape(s) && segMatcher(s) && segRegexp(s)
 // Segments are immutable once built: whatever held of an existing segment still holds
 //@ pred segsKept() = forall s *Segment :: old(allocated(s)) && old(segOK(s)) ==> segOK(s)
